@@ -6,5 +6,7 @@ export CARGO_NET_OFFLINE=true
 # model library, executable model, and every property module of the quick tier (C07Big is thorough-only)
 (cd lean && lake build LdpcV vmodel $(ls LdpcV/Props/*.lean | grep -v C07Big | sed 's#/#.#g; s#\.lean$##'))
 (cd harness && cargo build --offline)
+# the command-line binary for C20, from /repo's working tree into the harness target directory
+cargo build --release --offline --manifest-path /repo/Cargo.toml --bin ldpc-toolbox --target-dir harness/target/repo
 mkdir -p work evidence replays
 echo "setup done"
